@@ -481,6 +481,7 @@ func parseVals(s string) map[string]interface{} {
 // helm are reported as errors of the form "PANIC: ...".
 func (e *Env) RunOp(proc, i int, s Step) (res OpResult) {
 	cfg := e.Config(proc)
+	reqs0, reqw0 := e.Sim.CountBy(proc)
 	e.Rec.Plan(proc, i, s.Fault, s.Crash)
 	e.Rec.Log(Event{Proc: proc, Step: i, Ev: "begin", Op: s.Op, Chart: s.Chart, Vals: s.Vals, Flags: NormFlags(s.Flags), OK: true})
 	defer func() {
@@ -498,7 +499,8 @@ func (e *Env) RunOp(proc, i int, s Step) (res OpResult) {
 		if e.endGate != nil {
 			e.endGate(proc)
 		}
-		e.Rec.Log(Event{Proc: proc, Step: i, Ev: "end", Op: s.Op, OK: res.Err == "", Err: res.Err, Info: res.Info, Kept: keptNames(res.Info), FaultHit: fdesc, Calls: calls})
+		e.Rec.Log(Event{Proc: proc, Step: i, Ev: "end", Op: s.Op, OK: res.Err == "", Err: res.Err, Info: res.Info, Kept: keptNames(res.Info), FaultHit: fdesc, Calls: calls,
+			Reqs: func() int { a, _ := e.Sim.CountBy(proc); return a - reqs0 }(), ReqW: func() int { _, w := e.Sim.CountBy(proc); return w - reqw0 }()})
 	}()
 	f := s.Flags
 	if f == nil {
@@ -506,7 +508,7 @@ func (e *Env) RunOp(proc, i int, s Step) (res OpResult) {
 	}
 	timeout := 5 * time.Second
 	if s.Via == "cli" {
-		if len(e.Lib[s.Chart].CRDs) > 0 {
+		if len(e.Lib[s.Chart].CRDs) > 0 || e.Lib[s.Chart].Lookup {
 			cfg.RESTClientGetter = &simcluster.Getter{F: &simcluster.Factory{RT: e.Sim.Transport(proc), Namespace: RelNS}}
 		}
 		out, err := e.runCLI(cfg, s)
@@ -524,7 +526,7 @@ func (e *Env) RunOp(proc, i int, s Step) (res OpResult) {
 		if err != nil {
 			return OpResult{Err: "chart: " + err.Error()}
 		}
-		if len(e.Lib[s.Chart].CRDs) > 0 {
+		if len(e.Lib[s.Chart].CRDs) > 0 || e.Lib[s.Chart].Lookup {
 			cfg.RESTClientGetter = &simcluster.Getter{F: &simcluster.Factory{RT: e.Sim.Transport(proc), Namespace: RelNS}}
 		}
 		in := action.NewInstall(cfg)
